@@ -86,3 +86,48 @@ class GenerateNames:
 
     def raises(self):
         return {"*": True}
+
+
+@contract(MR + ".fix_name_duplicates", props=["C03", "C11"])
+class FixNameDuplicates:
+    """C03/C11 (class names unique): walking the models in registration order, a model whose name was already used by an earlier
+    model is renamed to <name>_<index> and marked generated; every other model keeps its name."""
+    sorts = {"_registry": "dict", "counter": "dict", "model": "obj:ModelMeta", "_name": "any", "index": "str", "_name_generated": "any"}
+    modifies = ["_name", "_name_generated"]
+
+    def requires(self):
+        ms = dict_values(self._registry)
+        return {"distinct_model_objects": forall(range(seq_len(ms)), lambda i: forall(range(seq_len(ms)), lambda j: implies(i != j, not (at(ms, i) is at(ms, j))))),
+                "names_are_str_or_none": forall(range(seq_len(ms)), lambda i: is_none(attr_of(at(ms, i), "_name")) or ty_is(attr_of(at(ms, i), "_name"), str)),
+                "indexes_are_str": forall(range(seq_len(ms)), lambda i: ty_is(attr_of(at(ms, i), "index"), str) and len(sval(attr_of(at(ms, i), "index"))) > 0),
+                "no_name_is_an_index": forall(range(seq_len(ms)), lambda i: forall(range(seq_len(ms)), lambda j: not (attr_of(at(ms, i), "_name") == attr_of(at(ms, j), "index"))))}
+
+    def ensures(self):
+        ms = dict_values(self._registry)
+        return {
+            "repeated_names_get_index_suffix": forall(range(seq_len(ms)), lambda j: implies(
+                truthy(old(attr_of(at(ms, j), "_name"))) and exists(range(j), lambda i: old(attr_of(at(ms, i), "_name")) == old(attr_of(at(ms, j), "_name"))),
+                sval(attr_of(at(ms, j), "_name")) == sval(old(attr_of(at(ms, j), "_name"))) + "_" + sval(attr_of(at(ms, j), "index"))
+                and attr_of(at(ms, j), "_name_generated") is box_bool(True))),
+            "first_uses_keep_their_name": forall(range(seq_len(ms)), lambda j: implies(
+                not truthy(old(attr_of(at(ms, j), "_name"))) or not exists(range(j), lambda i: old(attr_of(at(ms, i), "_name")) == old(attr_of(at(ms, j), "_name"))),
+                attr_of(at(ms, j), "_name") is old(attr_of(at(ms, j), "_name")))),
+        }
+
+
+@loop(MR + ".fix_name_duplicates", 1)
+def fix_name_duplicates_loop(self, counter, _it, _seq):
+    return {
+        "counted": forall(range(_it), lambda i: implies(truthy(old(attr_of(_seq[i], "_name"))),
+                                                        old(attr_of(_seq[i], "_name")) in counter and ival(counter[old(attr_of(_seq[i], "_name"))]) >= 1)),
+        "only_seen_names_counted": forall(counter, lambda k: ival(counter[k]) >= 1 and (exists(range(_it), lambda i: truthy(old(attr_of(_seq[i], "_name"))) and old(attr_of(_seq[i], "_name")) is k)
+                                                                                      or exists(range(_it), lambda i: not truthy(old(attr_of(_seq[i], "_name"))) and attr_of(_seq[i], "index") is k))),
+        "later_models_untouched": forall(range(_it, seq_len(_seq)), lambda j: attr_of(_seq[j], "_name") is old(attr_of(_seq[j], "_name"))),
+        "renamed_so_far": forall(range(_it), lambda j: implies(
+            truthy(old(attr_of(_seq[j], "_name"))) and exists(range(j), lambda i: old(attr_of(_seq[i], "_name")) == old(attr_of(_seq[j], "_name"))),
+            sval(attr_of(_seq[j], "_name")) == sval(old(attr_of(_seq[j], "_name"))) + "_" + sval(attr_of(_seq[j], "index"))
+            and attr_of(_seq[j], "_name_generated") is box_bool(True))),
+        "kept_so_far": forall(range(_it), lambda j: implies(
+            not truthy(old(attr_of(_seq[j], "_name"))) or not exists(range(j), lambda i: old(attr_of(_seq[i], "_name")) == old(attr_of(_seq[j], "_name"))),
+            attr_of(_seq[j], "_name") is old(attr_of(_seq[j], "_name")))),
+    }
